@@ -12,17 +12,20 @@ impl Wake for Flag { fn wake(self: Arc<Self>) { self.0.store(true, Ordering::Seq
 static AT: AtomicU8 = AtomicU8::new(255);
 fn sched(n: u8) { if AT.load(Ordering::SeqCst) == n { AT.store(255, Ordering::SeqCst); CtrlC::__verif_on_interrupt() } }
 
-fn polls(ps: &[Value]) -> Value {
+fn polls(ps: &[Value], wakers: &[u64]) -> Value {
     *__VERIF_SCHED.lock().unwrap() = Some(sched);
     CtrlC::__verif_reset();
-    let flag = Arc::new(Flag(AtomicBool::new(false)));
-    let waker = flag.clone().into();
-    let mut cx = Context::from_waker(&waker);
+    // two tasks' wakers: the accept loop may be polled with a different waker on a later poll (the future moved to another task)
+    let flags = [Arc::new(Flag(AtomicBool::new(false))), Arc::new(Flag(AtomicBool::new(false)))];
+    let ws: [std::task::Waker; 2] = [flags[0].clone().into(), flags[1].clone().into()];
     let c = CtrlC;   // the unit struct; `new()` would also install the process-wide signal handler
     let mut fut = Box::pin(c.until_interrupt(std::future::pending::<()>()));
     let mut out = vec![];
-    for p in ps {
+    for (i, p) in ps.iter().enumerate() {
         let at = p.as_u64().map(|x| x as u8);
+        let w = wakers.get(i).copied().unwrap_or(0) as usize & 1;
+        let flag = &flags[w];
+        let mut cx = Context::from_waker(&ws[w]);
         flag.0.store(false, Ordering::SeqCst);           // the task is being polled: its wake has been consumed
         AT.store(255, Ordering::SeqCst);
         if at == Some(0) { CtrlC::__verif_on_interrupt() }
@@ -50,6 +53,7 @@ fn wg(ops: &[Value]) -> Value {
         match o.as_str().unwrap() {
             "add" => tokens.push(root.add()),
             "done" => { let t = tokens.remove(0); t.done() }
+            "drop" => { let t = tokens.remove(0); drop(t) }          // a session task that ends by unwinding: its handle is dropped, `done` is never called
             "poll" => out.push(matches!(root.as_mut().poll(&mut cx), Poll::Ready(()))),
             x => panic!("harness: wg op {x}"),
         }
@@ -60,5 +64,6 @@ fn wg(ops: &[Value]) -> Value {
 
 pub fn run_case(c: &Value) -> Value {
     if let Some(w) = c.get("wg").and_then(Value::as_array) { return wg(w) }
-    polls(c["polls"].as_array().unwrap())
+    let wakers: Vec<u64> = c.get("wakers").and_then(Value::as_array).map(|a| a.iter().map(|x| x.as_u64().unwrap_or(0)).collect()).unwrap_or_default();
+    polls(c["polls"].as_array().unwrap(), &wakers)
 }
